@@ -61,16 +61,15 @@ Fault == /\ phase = "fault" /\ Len(faults) < NFaults /\ Cap >= 1
          /\ \E fs \in FaultSets : faults' = Append(faults, fs)
          /\ UNCHANGED <<mode, items, raw, pend, phase, nd>>
 EmitSym == /\ phase = "fault" /\ (Len(faults) >= NFaults \/ Cap < 1)
-           /\ LET s == Sym(Compact, Layers, items, TRUE)
-                  sp == Spiral(Compact, Layers)
-              IN PrintT(<<"GEN", ToJson([c |-> Compact, layers |-> Layers, ws |-> s.ws, ncw |-> s.ncw, nd |-> s.nd,
+           /\ \E s \in {Sym(Compact, Layers, items, TRUE)}, sp \in {Spiral(Compact, Layers)} :   \* (bound once: LET is re-evaluated per use in actions)
+                 PrintT(<<"GEN", ToJson([c |-> Compact, layers |-> Layers, ws |-> s.ws, ncw |-> s.ncw, nd |-> s.nd,
                      items |-> items, text |-> s.text, hl |-> Chunks(s.hl), nhl |-> Len(s.hl), rows |-> s.rows,
                      faults |-> faults,
                      flips |-> [k \in 1..Len(faults) |-> FlipCells(Compact, Layers, sp, faults[k])]])>>)
            /\ phase' = "done" /\ UNCHANGED <<mode, items, raw, pend, faults, nd>>
 \* mc: every script reached is a complete conforming message: emit it for replay on the real high-level decoder
 EmitScript == /\ Mode = "mc" /\ phase = "build" /\ pend = "" /\ items # <<>> /\ Len(items) <= EmitMax
-              /\ LET sc == Script(items) IN
+              /\ \E sc \in {Script(items)} :
                  PrintT(<<"GEN", ToJson([items |-> items, text |-> sc.text, hl |-> Chunks(sc.bits), nhl |-> Len(sc.bits)])>>)
               /\ phase' = "done" /\ UNCHANGED <<mode, items, raw, pend, faults, nd>>
 Next == Choose \/ Grow \/ Finish \/ Fault \/ EmitSym \/ EmitScript
